@@ -665,6 +665,10 @@ __offs(struct zif_s z[static 1U], stamp_t t)
 	if (LIKELY(t >= z->cache.prev && t < z->cache.next)) {
 		/* use the cached offset */
 		return z->cache.offs;
+	} else if (z->cache.prev >= z->cache.next) {
+		/* an empty cache range (e.g. the initial state) carries no index */
+		min = 0;
+		max = z->ntr;
 	} else if (t >= z->cache.next) {
 		min = z->cache.trno + 1;
 		max = z->ntr;
